@@ -296,6 +296,10 @@ class Context:
         """Equality on normal forms only (no raw-term query even in raw mode)."""
         return mkbool(eq_formula(a, b))
 
+    def is_zero(self, a):
+        """Exactly zero (concrete mode: no tolerance)."""
+        return mkbool(eq_formula(a, 0))
+
     def le(self, a, b):
         return self._rel(a, b, '<=')
 
@@ -509,7 +513,7 @@ class Context:
             if v == 'sat':
                 m = None
                 if self.robust:
-                    vr, m = self.full_model(And.make([nf] + self.robust), self.t_branch)
+                    vr, m = self.full_model(And.make([nf] + self.robust), self.t_claim)
                     if vr != 'sat':
                         m = None
                 if m is None:
@@ -904,6 +908,9 @@ class ConcreteContext:
 
     def eq_nf(self, a, b):
         return self.eq(a, b)
+
+    def is_zero(self, a):
+        return float(a) == 0.0
 
     def le(self, a, b):
         a = float(a)
